@@ -208,10 +208,11 @@ theorem counters_never_exceed (s : Script) (hraw : c.saltSize + (s.chunks.map (c
         · simp [hrep] at hc; omega
         · simp [hrep] at hc; omega
 
-/-- **wiring**: opened once before handling, closed once after handling on every path (generated facts).  That
-    authentication is reported once and only after the authentication branch used to be a third, syntactic fact; it
-    is now proved about the translated `handleConnection` (`code_authentication_and_probe_reports` below). -/
-theorem wiring : Gen.Wiring.tcpOpenedOnceBeforeHandle = true ∧ Gen.Wiring.tcpClosedOnceAfterHandleConnection = true := by decide
+/-- **wiring**: closed once after handling on every path (generated fact about `streamHandler.Handle`, which is not
+    translated).  "Opened once before handling" and "authentication reported once and only after the authentication
+    branch" used to be two more syntactic facts; they are now proved about the translated `ssService.HandleStream` and
+    `handleConnection` (`code_opened_once_then_handled`, `code_authentication_and_probe_reports` below). -/
+theorem wiring : Gen.Wiring.tcpClosedOnceAfterHandleConnection = true := by decide
 
 
 /-! ### the counting wrapper (metrics.MeasureConn), tied by the `mconn` campaign -/
@@ -409,5 +410,24 @@ theorem code_status_names_the_outcome
     cases hr : (req (authenticate oc).2.1).2 with
     | some e => exact ⟨_, rfl⟩
     | none => exact ⟨_, rfl⟩
+
+/-- **code_opened_once_then_handled**: the translated `ssService.HandleStream` (service/shadowsocks.go), for every
+    service object, context and connection: it never panics and makes exactly one call of the stream handler's `Handle`,
+    for this very connection, handing it the metrics object that `AddOpenTCPConnection` returned for this connection — the
+    function is consulted once, in that argument (or not at all when the service has no metrics) — and nothing else.  (This
+    used to be the syntactic fact "AddOpenTCPConnection appears once and before sh.Handle".) -/
+theorem code_opened_once_then_handled
+    (addOpen : GoRT.Opaque "service.ServiceMetrics" → GoRT.Opaque "net.Conn" → GoRT.Opaque "service.TCPConnMetrics")
+    (s : Gen.Code.ssService) (ctx : GoRT.Opaque "context.Context") (conn : Tie.Handle.Conn) :
+    ∃ s', Gen.Code.ssService.HandleStream addOpen s ctx conn = some s' ∧
+      callsNamed "sh.Handle" s'.eff = callsNamed "sh.Handle" s.eff + 1 ∧ s'.eff.length = s.eff.length + 1 ∧
+      s'.eff.getLast? = some { name := "sh.Handle", args := [], vals :=
+        [[GoRT.Atom.tok ctx.val], [GoRT.Atom.tok conn.val],
+         [GoRT.Atom.tok (if s.metrics ≠ ⟨0⟩ then addOpen s.metrics ⟨conn.val⟩ else ⟨0⟩).val]] } := by
+  rw [Tie.Handle.handleStream_tie]
+  refine ⟨_, rfl, ?_, ?_, ?_⟩
+  · simp [callsNamed, List.filter_append]
+  · simp
+  · simp
 
 end OutlineModel.Props.C15
